@@ -48,7 +48,29 @@ def bootstrap():
     import logging
 
     logging.disable(logging.CRITICAL)
+    _pin_hypothesis()
     return fontTools
+
+
+def _pin_hypothesis():
+    """Hypothesis >= 6.131 harvests literal constants from every *local* module found in sys.modules
+    (fontTools under /repo/Lib and our own modules count as local) and mixes them into generation.
+    Which fontTools modules are loaded depends on which jobs a pool worker happened to run before,
+    so generation was not a function of VERIF_SEED alone (observed: C02 label counts differing between
+    two runs of the same seed). The pool of local constants is therefore pinned to the empty one;
+    boundary values are put into the strategies explicitly."""
+    try:
+        from hypothesis.internal.conjecture import providers as _p
+    except Exception:  # pragma: no cover
+        return
+    if getattr(_p, "_vf_pinned", False):
+        return
+    try:
+        empty = _p.Constants()
+        _p._get_local_constants = lambda: empty
+        _p._vf_pinned = True
+    except Exception:  # pragma: no cover - older/newer hypothesis without this feature
+        pass
 
 
 # ---------------------------------------------------------------------------
